@@ -10,6 +10,7 @@ import (
 	"context"
 	"fmt"
 	"sort"
+	"strings"
 	"testing"
 
 	"github.com/Comcast/sheens/core"
@@ -63,7 +64,7 @@ func strideCanon(st *core.Stride, err error) string {
 func runC06(c *sim.Ctx, t *testing.T) {
 	sim.Install(c)
 	defer sim.Uninstall()
-	cfg := genCfg{native: true, failOps: true, nullRet: true, permanents: true, badBranch: true, unknownNode: true, guards: true, guardEmits: true, loops: true, maxNodes: 5}
+	cfg := genCfg{native: true, failOps: true, nullRet: true, permanents: true, badBranch: true, unknownNode: true, guards: true, guardEmits: true, loops: true, maxNodes: 5, propWrites: true}
 	gs := genSpec(c, cfg)
 	spec, err := compile(gs)
 	if err != nil {
@@ -72,6 +73,18 @@ func runC06(c *sim.Ctx, t *testing.T) {
 	}
 	ctx := context.Background()
 	msgs := genHistory(c, 4)
+	typed := c.Bool("typednumbers")
+	draw := func(n int) int { return c.Intn(n, "numtype") }
+	if typed {
+		for i := range msgs {
+			// messages built by a Go host: arrays of ids, counters as ints
+			mm := msgs[i].(map[string]interface{})
+			if c.Bool("idlist") {
+				mm[msgKeys[c.Intn(3, "idkey")]] = []interface{}{1.0, 2.0, map[string]interface{}{"p": 3.0}}
+			}
+			msgs[i] = typify(draw, mm)
+		}
+	}
 	nstates := 1 + c.Intn(3, "fanout")
 	shape := ""
 	for k := 0; k < nstates; k++ {
@@ -79,13 +92,19 @@ func runC06(c *sim.Ctx, t *testing.T) {
 		if start.Bs == nil {
 			start.Bs = map[string]interface{}{}
 		}
+		if typed {
+			if c.Bool("idlistbs") {
+				start.Bs[bsKeys[c.Intn(3, "idbskey")]] = []interface{}{1.0, 2.0}
+			}
+			typify(draw, start.Bs)
+		}
 		st := toState(start)
 		ctl := &core.Control{Limit: []int{1, 2, 5, 30}[c.Intn(4, "limit")]}
 		props := core.StepProps{"mid": "m1", "cfg": map[string]interface{}{"x": 1.0}}
 		useWalk := c.Bool("walk")
 		in := msgs // the same message objects are shown to every state (fan-out)
 		snap := func() string {
-			return fmt.Sprintf("state=%s msgs=%s ctl=%d/%d props=%s spec=%s", stateCanon(st), ref.Canon(in), ctl.Limit, len(ctl.Breakpoints), ref.Canon(map[string]interface{}(props)), specPatterns(spec))
+			return fmt.Sprintf("state=%s/%s msgs=%s ctl=%d/%d props=%s spec=%s", st.NodeName, typedCanon(st.Bs), typedCanon(in), ctl.Limit, len(ctl.Breakpoints), typedCanon(map[string]interface{}(props)), specPatterns(spec))
 		}
 		before := snap()
 		inPtr := mapPtr(st.Bs)
@@ -143,10 +162,10 @@ func runC06(c *sim.Ctx, t *testing.T) {
 		if before != after {
 			what := "state"
 			switch {
-			case stateCanon(toState(start)) != stateCanon(st):
-				what = "state"
-			case ref.Canon(in) != ref.Canon(msgs):
+			case strings.Contains(before, "msgs=") && before[strings.Index(before, "msgs="):strings.Index(before, " ctl=")] != after[strings.Index(after, "msgs="):strings.Index(after, " ctl=")]:
 				what = "messages"
+			case before[strings.Index(before, "props="):strings.Index(before, " spec=")] != after[strings.Index(after, "props="):strings.Index(after, " spec=")]:
+				what = "props"
 			}
 			fn := "Step"
 			if useWalk {
